@@ -426,7 +426,7 @@ class Ctx:
         """Fold harness reports into the evidence and turn divergences into violations."""
         for name, rep in gores.reports.items():
             ev = int(rep.get("evaluations", 0))
-            if ev < require_evals:
+            if ev < require_evals and not (rep.get("divergences") or []):
                 raise Broken("harness report %s covered %d evaluations (< %d): dead driver" % (name, ev, require_evals))
             self.evaluations += ev
             self.distinct += int(rep.get("distinct_nontrivial", 0))
